@@ -343,7 +343,7 @@ def run_hview(kind, tier, seed, C):
 
 def run_stream(st, prop, tier, seed, C):
     if st in PIPE: return run_pipe(PIPE[st], tier, seed, C)
-    if st == "hview": return run_hview(st, tier, seed, C)
+    if st in ("hview", "hview-adm"): return run_hview(st, tier, seed, C)
     if st in ("pkcs8", "pem", "hostile-files", "names"): return run_keys(st, tier, seed, C)
     if st in ("dirrun", "dirfault", "cli"): return run_dir(st, tier, seed, C)
     if st.startswith("cert-"):
